@@ -147,6 +147,44 @@ pub fn generate(repo: &PathBuf) -> Result<String, String> {
     if b != "{ifrecord.value.len()<RecordHeader::SIZE+1{returnErr(Error::RecordHeaderParsingFailed);}Self::try_deserialize(&record.value[..RecordHeader::SIZE+1])}" {
         return Err(format!("RecordHeader::from_record: unexpected body {b}"));
     }
+    // the two other decoding entry points of RecordHeader: both must go through the real decoder
+    let f = impl_fn(&file, "RecordHeader", None, "try_deserialize")?;
+    let b = toks(&f.block);
+    if !b.starts_with("{rmp_serde::from_slice(bytes).map_err(|err|{") || !b.ends_with("Error::RecordHeaderParsingFailed})}") {
+        return Err(format!("RecordHeader::try_deserialize: unexpected body {b}"));
+    }
+    let f = impl_fn(&file, "RecordHeader", None, "is_record_of_type_chunk")?;
+    let b = toks(&f.block);
+    if b != "{letkind=Self::from_record(record)?.kind;Ok(kind==RecordKind::Chunk)}" {
+        return Err(format!("RecordHeader::is_record_of_type_chunk: expected `Self::from_record(record)?.kind == RecordKind::Chunk`, found {b}"));
+    }
+    // every public item of header.rs is one this translator knows (a new decoding entry point must be modelled first)
+    let known_fns = ["try_serialize", "try_deserialize", "from_record", "is_record_of_type_chunk"];
+    for it in &file.items {
+        match it {
+            syn::Item::Impl(i) if i.trait_.is_none() => {
+                for ii in &i.items {
+                    if let syn::ImplItem::Fn(f) = ii {
+                        if matches!(f.vis, syn::Visibility::Public(_)) && !known_fns.contains(&f.sig.ident.to_string().as_str()) {
+                            return Err(format!("header.rs: unmodelled public fn {}::{}", toks(&i.self_ty), f.sig.ident));
+                        }
+                    }
+                }
+            }
+            syn::Item::Impl(i) => {
+                let tr = i.trait_.as_ref().map(|(_, p, _)| last_ident(p)).unwrap_or_default();
+                if toks(&i.self_ty).contains("Record") && !["Serialize", "Deserialize", "Display"].contains(&tr.as_str()) {
+                    return Err(format!("header.rs: unmodelled impl {tr} for {}", toks(&i.self_ty)));
+                }
+            }
+            syn::Item::Fn(f) if matches!(f.vis, syn::Visibility::Public(_)) => {
+                if !["try_deserialize_record", "try_serialize_record"].contains(&f.sig.ident.to_string().as_str()) {
+                    return Err(format!("header.rs: unmodelled public fn {}", f.sig.ident));
+                }
+            }
+            _ => {}
+        }
+    }
     let f = free_fn(&file, "try_deserialize_record")?;
     let b = toks(&f.block);
     if !b.starts_with("{letbytes=ifrecord.value.len()>RecordHeader::SIZE{&record.value[RecordHeader::SIZE..]}else{returnErr(Error::RecordParsingFailed);};rmp_serde::from_slice(bytes)") {
@@ -208,6 +246,7 @@ pub fn generate(repo: &PathBuf) -> Result<String, String> {
     s.push_str("  | _ => none\n");
     s.push_str(&format!("/-- `RecordHeader::SIZE` -/\ndef headerSize : Nat := {size}\n"));
     s.push_str("/-- `RecordHeader::from_record` decodes the first `SIZE + 1` bytes -/\ndef headerWindow : Nat := headerSize + 1\n");
+    s.push_str("/-- `RecordHeader::is_record_of_type_chunk` is `from_record(record)?.kind == RecordKind::Chunk` -/\ndef isChunkViaFromRecord : Bool := true\n");
     s.push_str(&format!("/-- `Deserialize for Chunk` builds the value with `Chunk::new` -/\ndef chunkDeUsesNew : Bool := {}\n", lean_bool(de_recomputes)));
     s.push_str(&format!("/-- `Chunk::new` sets `address = XorName::from_content(value)` -/\ndef chunkNewHashesValue : Bool := {}\n", lean_bool(new_hashes)));
     s.push_str("end SafeNet.Gen.Wire\n");
